@@ -3,8 +3,9 @@
 import json, os, subprocess, sys
 all_props = '--all' in sys.argv
 only = [a for a in sys.argv[1:] if not a.startswith('--')]
-seeds = sorted(os.listdir('/verif/seeded'))
+seeds = sorted(d for d in os.listdir('/verif/seeded') if os.path.isdir('/verif/seeded/'+d))
 assert subprocess.run('git -C /repo status --porcelain', shell=True, capture_output=True, text=True).stdout.strip() == '', '/repo not clean'
+import shutil; os.makedirs('/tmp/sweep-verif', exist_ok=True); shutil.copy('/verif/known_findings.json', '/tmp/sweep-verif/known_findings.json')
 summary = {}
 for s in seeds:
     if only and s not in only: continue
